@@ -22,11 +22,11 @@ BASE_PROFILE = {
     'cts': [0, 0.5, 1, 1, 1.5, 2, 3, 0.25],
     'src_cts': [0.5, 1, 1, 2, 0.25, 1.5],
     'sink_cts': [0, 0, 0, 0.5, 1, 2],
-    'budget': [None, None, 5, 12, 30, 3],
+    'budget': [None, None, 5, 12, 30, 3, 0],
     'horizon': (20, 60), 'p_split': 0.3,
     'script_rate': 0.6,       # expected stimulus ops per 10 time units per eligible target
     'ops_w': {'fail': 2, 'shutdown': 1, 'restore': 2, 'work_order': 2, 'block': 1.5, 'unblock': 1.5,
-              'add_capacity': 1, 'adjust_budget': 0.7, 'rewire': 0.3, 'offset_cycle': 0.7},
+              'add_capacity': 1, 'adjust_budget': 0.7, 'rewire': 0.3, 'rewire_remove': 0.3, 'offset_cycle': 0.7},
     'p_maintainer': 0.6, 'p_ct_script': 0.2, 'p_value_cb': 0.4, 'p_collect': 0.5,
     'values': [0, 0.5, 1, 1.5, 2.25, 3], 'qualities': [1, 0.5, 0.75, 0.25],
     'p_same_instant': 0.3, 'p_initial_value': 0.0, 'p_poke': 0.0, 'p_trace': 0.0, 'p_scheduler': 0.2,
@@ -45,7 +45,7 @@ def profile(name):
         p['res_cap'] = (1, 2)
         p['ops_w'].update({'add_capacity': 2.5, 'block': 2.5, 'unblock': 2.5, 'adjust_budget': 1.5,
                            'rewire': 0.8})
-        p['budget'] = [3, 5, 8, 12, None]
+        p['budget'] = [3, 5, 8, 12, None, 0]
     elif name == 'buffers':       # C05
         p['stage_w'].update({'buffer': 8, 'batcher': 1.5, 'group': 0.5, 'nested_group': 0})
         p['p_batch_source'] = 0.35
@@ -390,6 +390,11 @@ class Gen:
                     e = self.rand_op(None)
                     if e is not None:
                         gap.append(e)
+                if rng.random() < 0.3:
+                    # the clock is also moved by direct use of the public Environment between the runs
+                    gap.insert(rng.randrange(len(gap) + 1),
+                               rng.choice([{'t': None, 'prio': 5, 'op': 'env_run', 'd': rng.choice([0.5, 1, 2.5])},
+                                           {'t': None, 'prio': 5, 'op': 'env_step', 'n': rng.choice([1, 3, 7])}]))
                 spec['between'].append(gap)
         if rng.random() < p['p_poke']:
             cands = [i['id'] for i in self.items if i['kind'] not in ('group',)]
@@ -427,6 +432,11 @@ class Gen:
             w.pop('offset_cycle', None)
         if len(free) < 2:
             w.pop('rewire', None)
+            w.pop('rewire_remove', None)
+        for it in self.items:
+            if it['kind'] == 'source' and it.get('budget') == 0:
+                ops.append({'t': grid_time(rng, horizon / 2.0), 'prio': rng.choice(PRIOS), 'op': 'adjust_budget',
+                            'target': it['id'], 'n': rng.choice([2, 4, 7])})
         for r, c in sorted(self.resources.items()):
             if c == 0:
                 ops.append({'t': grid_time(rng, horizon / 3.0), 'prio': rng.choice(PRIOS), 'op': 'add_capacity',
@@ -454,6 +464,12 @@ class Gen:
             elif op == 'create_asset':
                 e['what'] = rng.choice(['maintainer', 'handler'])
                 e['value'] = rng.choice([10, -2.5, 100, 0.5, 0])
+            elif op == 'rewire_remove':
+                multi = [i['id'] for i in self.items if i['id'] in free and len(i.get('up', [])) >= 2]
+                if not multi:
+                    return None
+                e['target'] = rng.choice(multi)
+                e['k'] = rng.randrange(3)
             elif op == 'rewire':
                 a, b = rng.sample(free, 2)
                 if self.order[a] > self.order[b]:
